@@ -1,13 +1,32 @@
 (* C04 - key generation is exactly the FIPS 204 function of the 32-byte seed.
 
-   FULL STATEMENT (not yet proved):
-     keygen_from_seed H P xi = Ok (pk, sk) ->
-       pk_into_bytes P pk = Ok pkb /\ sk_into_bytes P sk = Ok skb /\ Some (pkb, skb) = KeyGen_internal H P xi.
-   Proved here: the RNG-driven entry point is the seeded one applied to the 32 bytes drawn, with
-   exactly one request and nothing else (no other source of variation in the model). *)
+   FULL STATEMENT, proved below for every hash family with the output-length laws, every parameter
+   set and EVERY seed byte string xi:
+     - if the transcription of ML-DSA.KeyGen_internal (Algorithm 6, Spec/SpecMLDSA.v) returns
+       (pkb, skb), the model of keygen_from_seed returns Ok (pk, sk) - no Panic, no Err - and
+       pk.into_bytes() = pkb, sk.into_bytes() = skb (pkEncode / skEncode of Algorithms 22, 24);
+     - the transcription returns None only when a rejection sampler exhausted the finite squeeze
+       buffer the model gives it; the model then answers OutOfFuel (the real XOF is unbounded);
+     - the RNG-driven entry point is the seeded one applied to the 32 bytes drawn, with exactly
+       one request and nothing else.
+   Hence the keys are a function of (parameter set, xi) alone. *)
+Require Import List ZArith. Import ListNotations.
 Require Import F204.Base.Util F204.Base.Mach F204.Gen.Params F204.Gen.Guards
-  F204.Hash.HashIface F204.Impl.MlDsa F204.Impl.Api.
+  F204.Hash.HashIface F204.Impl.MlDsa F204.Impl.Api F204.Spec.SpecMLDSA F204.Proofs.KeygenRefine.
 Open Scope Z_scope.
+
+Theorem C04_keygen_is_FIPS204 : forall H, HashLaws H -> forall P, In P all_params -> forall xi,
+  match KeyGen_internal H P xi with
+  | Some (pkb, skb) => exists pk sk, keygen_from_seed H P xi = Ok (pk, sk) /\
+                                     pk_into_bytes P pk = Ok pkb /\ sk_into_bytes P sk = Ok skb
+  | None => keygen_from_seed H P xi = OutOfFuel
+  end.
+Proof.
+  intros H HL P HP xi. unfold keygen_from_seed. destruct (KeyGen_internal H P xi) as [[pkb skb]|] eqn:E.
+  - destruct (keygen_bytes H HL P HP xi pkb skb E) as (pk & sk & rho & K & tr & s1 & s2 & t0 & t1 & _ & Ek & _ & _ & _ & _ & Epk & Esk).
+    exists pk, sk. repeat split; assumption.
+  - apply (keygen_fuel H HL P HP xi E).
+Qed.
 
 Theorem C04_keygen_rng_is_seeded : forall H P xi g,
   zlen xi = 32 ->
@@ -21,5 +40,6 @@ Theorem C04_keygen_rng_failure : forall H P g p,
   try_keygen_with_rng H P (Fail p :: g) = (Err RngFailed, g).
 Proof. reflexivity. Qed.
 
+Print Assumptions C04_keygen_is_FIPS204.
 Print Assumptions C04_keygen_rng_is_seeded.
 Print Assumptions C04_keygen_rng_failure.
